@@ -32,6 +32,7 @@ RULE = (
     ' Round 11: every enumerated payload and version-looking text under every command and type; `pre_dumps` (headers whose digits concatenate equally, through one schema).'
     ' Round 12: header pairs whose number tuples hash alike in CPython.'
     ' Round 13: `bystander_config` (bystander codec / gateway objects built with every constructor option unknown to this harness).'
+    ' Round 14: `bad_dumps` (an encode refused part-way - an object with only some of the six attributes - precedes the message on the same schema).'
 )
 ASSUMPTIONS = [
     "MessageSchema with set_protocol(get_protocol(v)) is the codec entry point (as in the repository's tests)",
